@@ -37,7 +37,7 @@ const P: &str = "C16";
 // -------------------------------------------------------------- the service
 
 /// What a request asks the stub service to do, encoded in its first label:
-/// `k<k>-n<records>-s<txt size>-m<responses>-d<delay ms>-e<error>-p<section>`
+/// `k<k>-n<records>-s<txt size>-m<responses>-d<delay ms>-e<error>-p<section>-o<own OPT>`
 /// (section: 0 answer, 1 authority, 2 additional).
 #[derive(Clone, Copy, Debug, PartialEq)]
 struct Ask {
@@ -48,14 +48,17 @@ struct Ask {
     d: u32,
     e: u32,
     p: u32,
+    /// The service's response carries an OPT record of its own (1), with an
+    /// option in it (2).
+    o: u32,
 }
 
 impl Ask {
     fn label(&self) -> String {
-        format!("k{}-n{}-s{}-m{}-d{}-e{}-p{}", self.k, self.n, self.s, self.m, self.d, self.e, self.p)
+        format!("k{}-n{}-s{}-m{}-d{}-e{}-p{}-o{}", self.k, self.n, self.s, self.m, self.d, self.e, self.p, self.o)
     }
     fn parse(label: &str) -> Option<Ask> {
-        let mut a = Ask { k: 0, n: 0, s: 0, m: 1, d: 0, e: 0, p: 0 };
+        let mut a = Ask { k: 0, n: 0, s: 0, m: 1, d: 0, e: 0, p: 0, o: 0 };
         for part in label.split('-') {
             if part.is_empty() || !part.is_char_boundary(1) {
                 return None;
@@ -70,6 +73,7 @@ impl Ask {
                 "d" => a.d = v,
                 "e" => a.e = v,
                 "p" => a.p = v,
+                "o" => a.o = v,
                 _ => return None,
             }
         }
@@ -144,6 +148,20 @@ fn build_response(req: &Message<Vec<u8>>, ask: &Ask, j: u32) -> domain::base::me
                 break;
             }
         }
+    }
+    if ask.o > 0 {
+        // The service answers with an OPT record of its own (behind whatever
+        // it put into the additional section): the middleware has to take it
+        // out again for a client without EDNS, or to merge its own options
+        // into it - either way without losing a record.
+        sim::stat("probe.service_response_with_own_opt");
+        let _ = ad.opt(|o| {
+            o.set_udp_payload_size(1400);
+            if ask.o == 2 {
+                o.push_raw_option(domain::base::iana::OptionCode::from_int(65_001), 10, |t| octseq::OctetsBuilder::append_slice(t, &[0xAB; 10]))?;
+            }
+            Ok(())
+        });
     }
     ad
 }
@@ -283,7 +301,7 @@ struct Ledger {
 
 type Led = Rc<RefCell<Ledger>>;
 
-fn mk_request(ask: &Ask, id: u16, edns: Option<u16>, dnssec_ok: bool) -> Vec<u8> {
+fn mk_request(ask: &Ask, id: u16, edns: Option<u16>, dnssec_ok: bool, tcp: bool) -> Vec<u8> {
     let mut mb = MessageBuilder::new_vec();
     mb.header_mut().set_id(id);
     mb.header_mut().set_rd(true);
@@ -326,8 +344,18 @@ fn mk_request(ask: &Ask, id: u16, edns: Option<u16>, dnssec_ok: bool) -> Vec<u8>
         }
         // An edns-tcp-keepalive option (meaningless, but harmless, over UDP).
         let keepalive = sim::chance("req.keepalive", 1, 6);
+        // RFC 7828 section 3.2.1: a client's option carries no timeout; one
+        // that does is answered FORMERR by the EDNS middleware over a
+        // stream (and ignored, like the option as a whole, over UDP).
+        let keepalive_timeout = keepalive && sim::chance("req.keepalive_with_timeout", 1, 3);
         if keepalive {
             sim::stat("probe.request_with_tcp_keepalive_option");
+        }
+        if keepalive_timeout {
+            sim::stat("probe.request_with_keepalive_timeout");
+            if tcp {
+                LAST_REQ_SHORT.with(|c| c.set(true));
+            }
         }
         ad.opt(|o| {
             o.set_udp_payload_size(size);
@@ -336,7 +364,7 @@ fn mk_request(ask: &Ask, id: u16, edns: Option<u16>, dnssec_ok: bool) -> Vec<u8>
                 o.cookie(c)?;
             }
             if keepalive {
-                o.tcp_keepalive(None)?;
+                o.tcp_keepalive(if keepalive_timeout { Some(domain::base::opt::keepalive::IdleTimeout::from(100u16)) } else { None })?;
             }
             if edns_v1 {
                 o.set_version(1);
@@ -370,7 +398,8 @@ fn gen_ask(k: u32, udp: bool) -> Ask {
         e = 5 + sim::draw("ask.plain_slow", 2) as u32;
     }
     let p = if sim::chance("ask.other_section", 1, 5) { 1 + sim::draw("ask.section", 2) as u32 } else { 0 };
-    Ask { k, n, s, m, d, e, p }
+    let o = if sim::chance("ask.own_opt", 1, 6) { 1 + sim::draw("ask.own_opt_kind", 2) as u32 } else { 0 };
+    Ask { k, n, s, m, d, e, p, o }
 }
 
 fn gen_edns() -> Option<u16> {
@@ -388,20 +417,20 @@ fn gen_edns() -> Option<u16> {
 // ------------------------------------------------------------------ hostile
 
 fn hostile_payload() -> (Vec<u8>, &'static str) {
-    match sim::draw("hostile.kind", 10) {
+    match sim::draw("hostile.kind", 11) {
         0 => {
             let n = sim::draw("hostile.rand_len", 40) as usize;
             ((0..n).map(|i| if i == 0 { 0xED } else { (sim::draw("hostile.byte", 256) as u8).wrapping_add(i as u8) }).collect(), "fault.hostile_random")
         }
         1 => {
             // A response (QR=1).
-            let mut b = mk_request(&Ask { k: 9999, n: 0, s: 0, m: 1, d: 0, e: 0, p: 0 }, 60077, None, false);
+            let mut b = mk_request(&Ask { k: 9999, n: 0, s: 0, m: 1, d: 0, e: 0, p: 0, o: 0 }, 60077, None, false, false);
             b[2] |= 0x80;
             (b, "fault.hostile_qr1")
         }
         2 => {
             // Counts that lie.
-            let mut b = mk_request(&Ask { k: 9998, n: 0, s: 0, m: 1, d: 0, e: 0, p: 0 }, 60078, None, false);
+            let mut b = mk_request(&Ask { k: 9998, n: 0, s: 0, m: 1, d: 0, e: 0, p: 0, o: 0 }, 60078, None, false, false);
             b[4..6].copy_from_slice(&(sim::draw("hostile.qd", 65536) as u16).to_be_bytes());
             b[6..8].copy_from_slice(&(sim::draw("hostile.an", 65536) as u16).to_be_bytes());
             (b, "fault.hostile_counts")
@@ -416,7 +445,7 @@ fn hostile_payload() -> (Vec<u8>, &'static str) {
         }
         4 => {
             // Truncated message.
-            let mut b = mk_request(&Ask { k: 9997, n: 0, s: 0, m: 1, d: 0, e: 0, p: 0 }, 60079, Some(1232), false);
+            let mut b = mk_request(&Ask { k: 9997, n: 0, s: 0, m: 1, d: 0, e: 0, p: 0, o: 0 }, 60079, Some(1232), false, false);
             let keep = 1 + sim::draw("hostile.trunc", b.len() as u64 - 1) as usize;
             b.truncate(keep);
             (b, "fault.hostile_truncated")
@@ -471,6 +500,20 @@ fn hostile_payload() -> (Vec<u8>, &'static str) {
             q.push((Name::<Vec<u8>>::from_chars("b.svc.".chars()).unwrap(), Rtype::TXT)).unwrap();
             (q.into_message().into_octets(), "fault.hostile_two_questions")
         }
+        9 => {
+            // No question at all, but an OPT record with a client cookie
+            // (RFC 7873 section 5.4: a server cookie may be fetched that way).
+            let mut mb = MessageBuilder::new_vec();
+            mb.header_mut().set_id(60083);
+            let mut ad = mb.additional();
+            ad.opt(|o| {
+                o.set_udp_payload_size(1232);
+                o.cookie(domain::base::opt::cookie::Cookie::new(domain::base::opt::cookie::ClientCookie::from_octets([8, 7, 6, 5, 4, 3, 2, 1]), None))?;
+                Ok(())
+            })
+            .unwrap();
+            (ad.into_message().into_octets(), "fault.hostile_no_question_with_cookie")
+        }
         _ => (Vec::new(), "fault.hostile_empty"),
     }
 }
@@ -490,7 +533,7 @@ async fn udp_client(led: Led, udp: UdpNet, server: std::net::SocketAddr, client:
         let ask = gen_ask(k0 + i, true);
         let edns = gen_edns();
         let id = (1000 + k0 + i) as u16;
-        let bytes = mk_request(&ask, id, edns, sim::chance("udp.do", 1, 4));
+        let bytes = mk_request(&ask, id, edns, sim::chance("udp.do", 1, 4), false);
         ev!("udp client{} sends k={} id={} edns={:?} ask={:?} ({} octets)", client, ask.k, id, edns, ask, bytes.len());
         led.borrow_mut().sent.push(Sent {
             ask,
@@ -716,7 +759,7 @@ async fn stream_client(exec: Exec, led: Led, listener: SimListener, client: usiz
             }
             let edns = if sim::chance("tcp.edns", 1, 2) { Some(1232) } else { None };
             let id = (k % 60000) as u16;
-            let bytes = mk_request(&ask, id, edns, false);
+            let bytes = mk_request(&ask, id, edns, false, true);
             let short = LAST_REQ_SHORT.with(|c| c.get());
             ev!("tcp client{} conn{} queues k={} id={} ask={:?}{}", client, conn, ask.k, id, ask, if short { " (EDNS version 1: answered by the middleware)" } else { "" });
             let idx = {
